@@ -24,7 +24,7 @@ MSG = b'Subject: r%d\r\n\r\nbody %d\r\n'
 
 async def scenario(hist, layout):
     errors = []
-    w = await MaildirWorld(layout=layout).start()
+    w = await MaildirWorld(layout=layout, time_budget=30.0).start()
     try:
         d = await w.client('d', user=b'alice', pw=b'apass')
         await d.cmd(b'CREATE Box')
